@@ -110,6 +110,24 @@ def p10_facts(path, n) -> None:
     path.assume(z3.Implies(n > 0, p10(n) >= 10))
 
 
+# decimal magnitude: floor(log10(|x|)) as a function of the value
+mag = z3.Function("mag10", z3.RealSort(), z3.IntSort())
+lg10 = z3.Function("lg10", z3.RealSort(), z3.IntSort())   # exponent of a power of ten
+
+
+def mag_fact(x):
+    ax = absr(x)
+    return z3.Implies(x != 0, z3.And(p10(mag(x)) <= ax, ax < p10(mag(x) + 1)))
+
+
+def lg_fact(n):
+    return lg10(p10(n)) == n
+
+
+def is_int(x):
+    return x == z3.ToReal(z3.ToInt(x))
+
+
 # integer powers of rationals ------------------------------------------------
 qpow_uf = z3.Function("qpow", z3.RealSort(), z3.IntSort(), z3.RealSort())
 
@@ -125,6 +143,12 @@ def qpow(x, n, path=None):
             for _ in range(abs(v)):
                 r = r * x
             return r if v >= 0 else 1 / r
+    sx = z3.simplify(x)
+    if z3.is_rational_value(sx) and sx.numerator_as_long() == 10 and \
+            sx.denominator_as_long() == 1:
+        if path is not None:
+            p10_facts(path, n)
+        return p10(n)
     t = qpow_uf(x, n)
     if path is not None:
         path.assume(z3.Implies(n == 0, t == 1))
